@@ -28,11 +28,13 @@ Picks ==
     [] Family = "select"  -> SelectPicks(N, Phases, Slice, Slices)
     [] Family = "operate" -> OperatePicks(N, Phases, Slice, Slices)
     [] Family = "chain"   -> ChainPicks(N, MaxChain, Phases, Slice, Slices)
+    [] Family = "acts"    -> ActsPicks(N, MaxChain > 0, Slice, Slices)
 ScenOf(pk) ==
   CASE Family = "flow"    -> FlowScen(pk)
     [] Family = "select"  -> SelectScen(pk)
     [] Family = "operate" -> OperateScen(pk)
     [] Family = "chain"   -> ChainScen(pk)
+    [] Family = "acts"    -> ActsScen(pk)
 
 HasRx(sc) ==
   \E ri \in 1..Len(sc.rules) : \E li \in 1..Len(sc.rules[ri].links) :
